@@ -195,6 +195,56 @@ pub fn build(tier: Tier) -> Check<'static> {
             },
         ));
     }
+    // part: the raw parser seam on directive-free text (no SyntaxTree wrapper, no preprocessor)
+    {
+        let s = seeds.clone();
+        c.parts.push(Part::new(
+            "raw-parser-seam",
+            s.len() as u64,
+            "sv_parser / lib_parser called directly on the preprocessed text of each seed: leaves of the returned SourceText / LibraryText tile the input",
+            move |i, acc| {
+                use sv_parser::RefNode;
+                use sv_parser_parser::{lib_parser, sv_parser, Span, SpanInfo};
+                let seed = &s[i as usize];
+                let text = match api::pp_str(&seed.text, Path::new("top.sv"), &Defs::new(), &[] as &[PathBuf], false, false) {
+                    Ok(Ok((pt, _))) => pt.text().to_string(),
+                    _ => return,
+                };
+                acc.transitions += 1;
+                let leaves: Option<Vec<(usize, usize, u32)>> = api::guarded(|| {
+                    let span = Span::new_extra(text.as_str(), SpanInfo::default());
+                    if seed.is_lib() {
+                        lib_parser(span).ok().map(|(_, t)| (&t).into_iter().filter_map(|n| if let RefNode::Locate(l) = n { Some((l.offset, l.len, l.line)) } else { None }).collect())
+                    } else {
+                        sv_parser(span).ok().map(|(_, t)| (&t).into_iter().filter_map(|n| if let RefNode::Locate(l) = n { Some((l.offset, l.len, l.line)) } else { None }).collect())
+                    }
+                })
+                .unwrap_or(None);
+                let Some(leaves) = leaves else {
+                    acc.class("raw-rejected");
+                    return;
+                };
+                acc.traces += 1;
+                let mut pos = 0usize;
+                for (k, (o, n, line)) in leaves.iter().enumerate() {
+                    let want_line = 1 + text.as_bytes()[..*o.min(&text.len())].iter().filter(|b| **b == b'\n').count() as u32;
+                    if *o != pos || *n == 0 || *line != want_line {
+                        acc.class("violation");
+                        acc.violation(None, json!({"seed": seed.id, "text": clip(&text, 1500)}), format!("raw seam: leaf #{} = (offset {}, len {}, line {}) but the previous leaf ended at {} and {} newline(s) precede it\ntext: {:?}", k, o, n, line, pos, want_line - 1, clip(&text, 400)));
+                        return;
+                    }
+                    pos = o + n;
+                }
+                if pos != text.len() {
+                    acc.class("violation");
+                    acc.violation(None, json!({"seed": seed.id, "text": clip(&text, 1500)}), format!("raw seam: leaves end at {} of {} bytes", pos, text.len()));
+                    return;
+                }
+                acc.class("raw-tiles");
+                acc.distinct(fnv(format!("raw{}", text).as_bytes()));
+            },
+        ));
+    }
     // part 5: library-map sentences
     {
         let sp = lib_sentences(tier.pick(2, 3));
